@@ -10,6 +10,7 @@ mod world;
 mod invite;
 mod mediaw;
 mod crashw;
+mod ffi;
 
 fn main() {
     let args: Vec<String> = std::env::args().collect();
@@ -26,6 +27,7 @@ fn main() {
         Some("conc") => conc::main(&args[2..]),
         Some("crash") => crash::main(&args[2..]),
         Some("codec") => codec::main(&args[2..]),
+        Some("ffi") => ffi::main(&args[2..]),
         _ => {
             eprintln!("usage: vh store [--file] < ops");
             2
